@@ -158,6 +158,20 @@ def cyc_dial_ok_then_lost(sc, i):
         sc.apply(("eof", c))
 
 
+def cyc_retransmitted_duplicate(sc, i):
+    sc.apply(("m", sc.std, "rt:a:0:1"))
+    sc.apply(("m", sc.std, "rt:a:1:1"))     # same origin and end-to-end id with the T flag: rejected by the node
+    sc.apply(("m", sc.std, "rt:a:1:2"))     # T flag, never answered before: delivered
+
+
+def cyc_dial_no_descriptor(sc, i):
+    sc.nw.world.socket_fail = 1             # the next socket() raises EMFILE
+    for _ in range(2):
+        sc.apply(("m", sc.std, "dwr"))
+        sc.apply(("tick", 1))
+    sc.nw.world.socket_fail = 0
+
+
 CYCLES = collections.OrderedDict([
     ("inbound-request-answered", cyc_in_req), ("outbound-request-answered", cyc_out_req),
     ("outbound-request-timeout-then-late-answer", cyc_out_req_timeout_late_answer),
@@ -169,6 +183,7 @@ CYCLES = collections.OrderedDict([
     ("connection-reset-before-CER", cyc_conn_reset),
     ("dial-refused", cyc_dial_refused), ("dial-failed-asynchronously", cyc_dial_async_fail),
     ("dial-CEA-rejected", cyc_dial_cea_rejected), ("dial-established-then-lost", cyc_dial_ok_then_lost),
+    ("retransmitted-duplicate-rejected", cyc_retransmitted_duplicate), ("dial-socket-creation-fails", cyc_dial_no_descriptor),
 ])
 
 SKIP_ATTRS = {"statistics", "counters", "statistics_history", "logger", "connection_logger", "stats_logger", "msg_dump", "avp_def",
@@ -303,7 +318,7 @@ def run(tier):
     rep.sample({"example_measure_keys": sorted(run_sequence(("inbound-request-answered",), 1)[0])[:25]})
     rep.cov.update({"states": len(jobs) * 2, "transitions": total_cycles, "traces_validated_against_impl": len(jobs) * 2,
                     "distinct_measures": len(distinct), "repetitions": [lo, hi],
-                    "explanation": "each of 18 complete cycles repeated N_lo and N_hi times on a fresh node (5/40 quick, 10/100 and 10/1000 thorough) and every ordered "
+                    "explanation": "each of 20 complete cycles repeated N_lo and N_hi times on a fresh node (5/40 quick, 10/100 and 10/1000 thorough) and every ordered "
                                    "pair of cycles repeated 2 and 6 times (thorough: also a VERIF_SEED-rotated third of all ordered triples, 2 and 4 times); the measure (sizes of all containers "
                                    "structurally reachable from node, peers, connections, applications except statistics and the bounded duplicate window; live "
                                    "threads; unclosed sockets; pipes) must be equal for both repetition counts"})
